@@ -145,6 +145,7 @@ pub struct Params {
     pub max_violations: usize,
     pub skip: HashSet<u64>,
     pub max_states_per_level: usize,
+    pub keep_keys: bool,
 }
 
 #[derive(Clone, Debug)]
@@ -172,6 +173,8 @@ pub struct Report {
     pub skipped_crash: u64,
     pub samples: Vec<serde_json::Value>,
     pub wall_s: f64,
+    /// every reached key (only kept when Params::keep_keys)
+    pub keys: Vec<u128>,
 }
 
 fn hash64(b: &[u8]) -> u64 {
@@ -199,6 +202,7 @@ struct Shared<'a, M: Model> {
     seen: &'a HashSet<u128>,
     next: Vec<Mutex<HashMap<u128, (Order, Hist<M::Cfg, M::Act>)>>>,
     last_keys: Vec<Mutex<HashSet<u128>>>,
+    init_keys: Mutex<Vec<u128>>,
     samples: Mutex<Vec<Hist<M::Cfg, M::Act>>>,
     nsamples: AtomicUsize,
     transitions: AtomicU64,
@@ -225,7 +229,7 @@ impl<'a, M: Model> Shared<'a, M> {
     }
 
     /// Returns false if the state must not be expanded.
-    fn handle(&self, h: &Hist<M::Cfg, M::Act>, out: &RunOut<M::Act>, order: Order, last_level: bool) {
+    fn handle(&self, h: &Hist<M::Cfg, M::Act>, out: &RunOut<M::Act>, order: Order, last_level: bool, is_init: bool) {
         let mut c = out.cov;
         while c != 0 {
             let b = c.trailing_zeros() as usize;
@@ -270,7 +274,20 @@ impl<'a, M: Model> Shared<'a, M> {
         }
         // A state with a violation of *any* property is not expanded (its future is not
         // meaningful); only the masked ones are reported.
+        if is_init {
+            // initial states are recorded separately (they enter `seen` before the next level)
+            if !bad && out.violations.is_empty() {
+                self.init_keys.lock().unwrap().push(out.key);
+            } else {
+                let sh = (out.key as usize) % self.last_keys.len();
+                self.last_keys[sh].lock().unwrap().insert(out.key);
+            }
+            return;
+        }
         if bad || !out.violations.is_empty() {
+            // reached and judged, not expanded: still a state
+            let sh = (out.key as usize) % self.last_keys.len();
+            self.last_keys[sh].lock().unwrap().insert(out.key);
             return;
         }
         if out.terminal {
@@ -313,7 +330,7 @@ impl<'a, M: Model> Shared<'a, M> {
             None => return,
         };
         self.transitions.fetch_add(1, Ordering::Relaxed);
-        self.handle(&h, &out, order, last_level);
+        self.handle(&h, &out, order, last_level, false);
         let last = h.len as usize - 1;
         if h.devs_used() < self.p.max_devs && (h.steps[last].ndev as usize) < MAX_DEVS_PER_STEP {
             let n = (out.nreq_last as usize).min(8);
@@ -343,6 +360,8 @@ pub fn explore<M: Model>(model: &M, p: &Params) -> Report {
     let mut level = 0usize;
     let mut initial = true;
     let mut viols_all: Vec<FoundViolation> = Vec::new();
+    // keys of states that were reached but never entered `seen` (terminal, violating, last level)
+    let mut extra_keys: HashSet<u128> = HashSet::new();
     let mut viol_keys_all: HashSet<String> = HashSet::new();
 
     while !frontier.is_empty() && level < p.max_depth.max(1) {
@@ -354,6 +373,7 @@ pub fn explore<M: Model>(model: &M, p: &Params) -> Report {
             seen: &seen,
             next: (0..256).map(|_| Mutex::new(HashMap::new())).collect(),
             last_keys: (0..256).map(|_| Mutex::new(HashSet::new())).collect(),
+            init_keys: Mutex::new(Vec::new()),
             samples: Mutex::new(Vec::new()),
             nsamples: AtomicUsize::new(0),
             transitions: AtomicU64::new(0),
@@ -394,15 +414,15 @@ pub fn explore<M: Model>(model: &M, p: &Params) -> Report {
                             None => continue,
                         };
                         if initial {
-                            // the initial state itself (constructor) is judged here
+                            // pre-pass: the initial states (constructors) are judged and their keys enter
+                            // `seen`; they are expanded in the next pass
                             let order = (i as u32, 0, 0);
-                            // not inserted into next: it is expanded right now
-                            let mut o = RunOut { key: out0.key, enabled: vec![], nreq_last: 0, terminal: true, violations: out0.violations.clone(), cov: out0.cov, outcome: out0.outcome };
-                            o.terminal = true;
-                            sh.handle(&h, &o, order, false);
-                            if !out0.violations.is_empty() {
-                                continue;
-                            }
+                            let o = RunOut { key: out0.key, enabled: vec![], nreq_last: 0, terminal: true, violations: out0.violations.clone(), cov: out0.cov, outcome: out0.outcome };
+                            sh.handle(&h, &o, order, false, true);
+                            continue;
+                        }
+                        if !out0.violations.is_empty() {
+                            continue;
                         }
                         if !last_level {
                             for (ai, a) in out0.enabled.iter().enumerate() {
@@ -441,6 +461,12 @@ pub fn explore<M: Model>(model: &M, p: &Params) -> Report {
         }
         let stopped = shared.stop.load(Ordering::Relaxed);
         let n_last: u64 = shared.last_keys.iter().map(|m| m.lock().unwrap().len() as u64).sum();
+        for mset in shared.last_keys.iter() {
+            for k in mset.lock().unwrap().iter() {
+                extra_keys.insert(*k);
+            }
+        }
+        let init_keys: Vec<u128> = shared.init_keys.lock().unwrap().clone();
         // collect next frontier deterministically
         let mut nxt: Vec<(Order, u128, Hist<M::Cfg, M::Act>)> = Vec::new();
         for m in shared.next.iter() {
@@ -450,12 +476,15 @@ pub fn explore<M: Model>(model: &M, p: &Params) -> Report {
         }
         drop(shared);
         if initial {
-            // initial states count as states
-            for h in frontier.iter() {
-                let _ = h;
+            let mut d = 0u64;
+            for k in init_keys.iter() {
+                if seen.insert(*k) {
+                    d += 1;
+                }
             }
-            rep.level_sizes.push(frontier.len() as u64);
-            rep.states += frontier.len() as u64;
+            rep.level_sizes.push(d);
+            initial = false;
+            continue;
         }
         if stopped {
             rep.partial_level = Some((level + 1, done_items.load(Ordering::Relaxed), frontier.len() as u64));
@@ -465,14 +494,15 @@ pub fn explore<M: Model>(model: &M, p: &Params) -> Report {
                 rep.caps_hit.push(format!("exploration stopped at level {} ({} of {} states expanded): the crate wrote outside memory it holds, so this process is no longer trustworthy", level, done_items.load(Ordering::Relaxed), frontier.len()));
             }
             // states discovered so far still count as visited
-            rep.states += nxt.len() as u64 + n_last;
+            for (_, k, _) in nxt.iter() {
+                extra_keys.insert(*k);
+            }
             break;
         }
         nxt.sort_by(|a, b| a.0.cmp(&b.0).then(a.1.cmp(&b.1)));
         for (_, k, _) in nxt.iter() {
             seen.insert(*k);
         }
-        rep.states += nxt.len() as u64 + n_last;
         level += 1;
         rep.depth_completed = level.min(p.max_depth);
         rep.level_sizes.push(nxt.len() as u64 + n_last);
@@ -492,6 +522,12 @@ pub fn explore<M: Model>(model: &M, p: &Params) -> Report {
         if let Some(c) = cfgs.first() {
             rep.samples.push(model.describe(&Hist::new(*c)));
         }
+    }
+    rep.states = seen.len() as u64 + extra_keys.iter().filter(|k| !seen.contains(k)).count() as u64;
+    if p.keep_keys {
+        let mut all: HashSet<u128> = seen.clone();
+        all.extend(extra_keys.iter().copied());
+        rep.keys = all.into_iter().collect();
     }
     rep.cov = model.cov_names().iter().enumerate().map(|(i, n)| (n.to_string(), cov_tot[i].load(Ordering::Relaxed))).collect();
     rep.distinct_outcomes = all_outcomes.len() as u64;
